@@ -15,7 +15,7 @@ SUITE=$(cargo test --workspace --no-fail-fast --offline 2>&1 | grep -E "^test re
 echo "suite with patch: $SUITE" >> "$L"
 echo "$SUITE" | grep -q "FAILED\|[1-9][0-9]* failed" && { echo "SUITE FAILS WITH PATCH" >> "$L"; git checkout -q -- .; exit 1; }
 if [ -f "_seed/demo$K.sh" ]; then
-  rundemo() { sh "_seed/demo$K.sh"; }
+  rundemo() { bash "_seed/demo$K.sh"; }
 else
   cp "_seed/demo$K.rs" "tests/seed_demo$K.rs"
   rundemo() { RUSTFLAGS="$RF" cargo test --offline $DEMO_ARGS --test "seed_demo$K" ${RF:+--target-dir target_verif}; }
